@@ -295,9 +295,13 @@ func Target(t *rapid.T, s ref.Schema, o *WireOpts, inUnion bool) (ts spec.TypeSp
 					// a pointer with omitempty: only the nil pointer is the null, a
 					// pointer to a zero value is a value
 					if rapid.Bool().Draw(t, "omitempty") {
-						fs.Opts = []string{"omitempty"}
+						// alone, or among other options of a struct shared with a JSON API
+						fs.Opts = [][]string{{"omitempty"}, {"omitempty"}, {"string", "omitempty"}, {"omitempty", "string"}}[rapid.IntRange(0, 3).Draw(t, "tagOpts")]
 					}
 				}
+			}
+			if len(fs.Opts) == 0 && rapid.IntRange(0, 11).Draw(t, "stringOpt") == 0 {
+				fs.Opts = []string{"string"} // an option that means nothing to Avro
 			}
 			st.Fields = append(st.Fields, fs)
 		}
